@@ -19,7 +19,11 @@ RULE = (
     "=> a table is returned with the same rows in the same order, unchanged name/altloc/residue name/coordinates/"
     "occupancy/B/element/charge/record type/model, limits satisfied, chain and residue renaming functional and "
     "injective, write_pdb -> parse_pdb_atoms reproducing it; infeasible => ValueError and nothing else; already "
-    "fitting => the input unchanged. Non-trivial: a table that does NOT already fit; distinct = distinct table+modification."
+    "fitting => the input unchanged. The same oracle is applied to SUB-TABLES of a parsed table (one model or some "
+    "chains, selected by boolean mask or by groupby as the splitter does; only some chains may carry long ids) and to "
+    "the files written by `splitter -f PDB` for a non-fitting mmCIF input; `unifier -f PDB` on one non-fitting mmCIF "
+    "file of complete standard nucleotides must write exactly the atoms of its A/C/G/U residues under a one-to-one, "
+    "grouping-preserving renaming (atoms matched by coordinates). Non-trivial: a table that does NOT already fit; distinct = distinct table+modification."
 )
 ASSUMPTIONS = [
     "grey zone between the certainly-feasible and certainly-infeasible predicates is not generated",
@@ -51,9 +55,16 @@ def modify(atoms, mod):
                 moved += rest + tail
             out = moved
     if mod.get("long_chains"):
-        m = {c: (c + mod["long_chains"]) for c in chains}
+        only = mod.get("long_only")
+        m = {c: (c + mod["long_chains"] if (not only or k % 2 == only - 1) else c) for k, c in enumerate(chains)}
         for a in out:
             a["chain"] = m[a["chain"]]
+    if mod.get("model_chains"):
+        # every model after the first carries its own (longer) chain names, as in split biological assemblies
+        first = min(a["model"] for a in out)
+        for a in out:
+            if a["model"] != first:
+                a["chain"] = a["chain"] + str(a["model"])
     if mod.get("number_shift"):
         for a in out:
             a["resseq"] += mod["number_shift"]
@@ -122,6 +133,88 @@ def check_fitted(tag, atoms, fitted_rows, out):
         serials[key] = True
 
 
+def select(atoms, df, sel):
+    kind, k = sel
+    fmt = df.attrs.get("format")
+    if kind in ("model", "groupby-model"):
+        models = []
+        for a in atoms:
+            if a["model"] not in models:
+                models.append(a["model"])
+        m = models[k % len(models)]
+        col = "model" if fmt == "PDB" else "pdbx_PDB_model_num"
+        sub_atoms = [a for a in atoms if a["model"] == m]
+        if kind == "model":
+            sub = df[df[col].astype(int) == m].copy()
+        else:
+            sub = None
+            for key, g in df.groupby(col):
+                if int(key) == m:
+                    sub = g.copy()
+            if sub is None:
+                raise HarnessError("groupby lost a model")
+    else:
+        chains = []
+        for a in atoms:
+            if a["chain"] not in chains:
+                chains.append(a["chain"])
+        keep = {c for i, c in enumerate(chains) if (i % 2 == k % 2)} if kind == "chains-alternate" else {chains[k % len(chains)]}
+        col = "chainID" if fmt == "PDB" else "auth_asym_id"
+        sub_atoms = [a for a in atoms if a["chain"] in keep]
+        sub = df[df[col].astype(str).isin(keep)].copy()
+    sub.attrs["format"] = fmt
+    return sub_atoms, sub
+
+
+def judge(tag, atoms, df, feas, out):
+    from rnapolis.parser_v2 import can_write_pdb, fit_to_pdb, parse_pdb_atoms, write_pdb
+
+    already = fits(atoms)
+    can = can_write_pdb(df)
+    if can != already:
+        out.append(D(f"C10:{tag}:can_write_pdb-wrong", f"can_write_pdb says {can}, table {'fits' if already else 'does not fit'}"))
+    before = c09.logical(df)
+    try:
+        fitted = fit_to_pdb(df)
+    except ValueError as e:
+        if feas == "feasible":
+            out.append(D(f"C10:{tag}:refused-feasible-table", f"ValueError on a table that certainly fits after renaming: {str(e)[:160]}"))
+        return
+    except Exception as e:
+        from rnaverif.runner import sut_location
+        out.append(D(f"C10:{tag}:crash:{type(e).__name__}@{sut_location(e.__traceback__)}", f"{type(e).__name__}: {str(e)[:200]}"))
+        return
+    if feas == "infeasible":
+        out.append(D(f"C10:{tag}:infeasible-not-refused", "a table that cannot fit was returned instead of ValueError"))
+        return
+    after_src = c09.logical(df)
+    if after_src != before:
+        out.append(D(f"C10:{tag}:input-mutated", "fit_to_pdb changed the table it was given"))
+    if already:
+        if fitted is not df and c09.logical(fitted) != before:
+            out.append(D(f"C10:{tag}:fitting-table-changed", "an already fitting table was not returned unchanged"))
+        return
+    try:
+        rows = c09.logical(fitted)
+    except Exception as e:
+        out.append(D(f"C10:{tag}:fitted-table-unreadable:{type(e).__name__}", f"{type(e).__name__}: {str(e)[:160]}"))
+        return
+    check_fitted(tag, atoms, rows, out)
+    if not can_write_pdb(fitted):
+        out.append(D(f"C10:{tag}:fitted-not-writable", "can_write_pdb(fit_to_pdb(t)) is False"))
+    try:
+        text = write_pdb(fitted)
+        back = c09.logical(parse_pdb_atoms(text))
+    except Exception as e:
+        from rnaverif.runner import sut_location
+        out.append(D(f"C10:{tag}:write-crash:{type(e).__name__}@{sut_location(e.__traceback__)}", f"{type(e).__name__}: {str(e)[:200]}"))
+        return
+    d = c09.diff_tables(f"{tag}:write-read", rows, back, False)
+    out += [D(x.sig.replace("C09:", "C10:"), x.what) for x in d]
+    lay = c09.check_pdb_layout(f"{tag}:written", text, rows)
+    out += [D(x.sig.replace("C09:", "C10:"), x.what) for x in lay]
+
+
 def oracle(case):
     from rnapolis.parser_v2 import can_write_pdb, fit_to_pdb, parse_cif_atoms, parse_pdb_atoms, write_pdb
 
@@ -138,50 +231,177 @@ def oracle(case):
     if fits(atoms) and not case.get("oversize"):
         sources.append(("pdb", parse_pdb_atoms(atomtab.emit_pdb(atoms, always_model=True))))
     for tag, df in sources:
-        already = fits(atoms)
-        can = can_write_pdb(df)
-        if can != already:
-            out.append(D(f"C10:{tag}:can_write_pdb-wrong", f"can_write_pdb says {can}, table {'fits' if already else 'does not fit'}"))
-        before = c09.logical(df)
+        judge(tag, atoms, df, feas, out)
+        sel = case.get("select")
+        if sel and not case.get("oversize"):
+            # a sub-table of a parsed table (one model / some chains, selected by mask or by groupby as the
+            # splitter does) is an atom table in its own right
+            sub_atoms, sub_df = select(atoms, df, sel)
+            if sub_atoms:
+                f2 = feasibility(sub_atoms)
+                if f2 != "grey":
+                    judge(f"{tag}:sub-{sel[0]}", sub_atoms, sub_df, f2, out)
+    seen, res = set(), []
+    for d in out:
+        if d.sig not in seen:
+            seen.add(d.sig)
+            res.append(d)
+    return res
+
+
+def oracle_splitter(case):
+    """splitter.main -f PDB on an mmCIF file that does not fit PDB limits: every model's file must hold that model's
+    atoms under a structure-preserving renaming (the same oracle as for fit_to_pdb)"""
+    import contextlib
+    import io
+    import os
+    import shutil
+    import sys
+
+    import rnapolis.splitter as sp
+    from rnapolis.parser_v2 import parse_pdb_atoms
+    from rnaverif.runner import WORK_DIR
+
+    atoms = modify(case["atoms"], case.get("mod", {}))
+    os.makedirs(WORK_DIR, exist_ok=True)
+    base = os.path.join(WORK_DIR, f"c10split_{os.getpid()}")
+    shutil.rmtree(base, ignore_errors=True)
+    os.makedirs(base)
+    src = os.path.join(base, "input.cif")
+    with open(src, "w") as f:
+        f.write(atomtab.emit_cif(atoms, case.get("null", "?")))
+    outdir = os.path.join(base, "out")
+    out = []
+    old = sys.argv
+    buf, err = io.StringIO(), io.StringIO()
+    try:
+        sys.argv = ["splitter", "-o", outdir, "-f", "PDB", src]
         try:
-            fitted = fit_to_pdb(df)
-        except ValueError as e:
-            if feas == "feasible":
-                out.append(D(f"C10:{tag}:refused-feasible-table", f"ValueError on a table that certainly fits after renaming: {str(e)[:160]}"))
-            continue
+            with contextlib.redirect_stdout(buf), contextlib.redirect_stderr(err):
+                sp.main()
+        except SystemExit as e:
+            if e.code not in (0, None):
+                return [D("C10:splitter:exit", f"splitter exited with {e.code}: {err.getvalue()[-200:]}")]
+        models = []
+        for a in atoms:
+            if a["model"] not in models:
+                models.append(a["model"])
+        for m in models:
+            want = [a for a in atoms if a["model"] == m]
+            feas = feasibility(want)
+            if feas != "feasible":
+                continue
+            path = os.path.join(outdir, f"input_model_{m}.pdb")
+            if not os.path.exists(path):
+                out.append(D("C10:splitter:model-file-missing", f"no PDB written for model {m} although it can be fitted; stderr: {err.getvalue()[-200:]}"))
+                continue
+            with open(path) as f:
+                text = f.read()
+            rows = c09.logical(parse_pdb_atoms(text))
+            if fits(want):
+                d = c09.diff_tables("splitter:already-fits", want, rows, True)
+                out += [D(x.sig.replace("C09:", "C10:"), x.what) for x in d]
+            else:
+                check_fitted("splitter", want, rows, out)
+            lay = c09.check_pdb_layout("splitter:written", text, rows)
+            out += [D(x.sig.replace("C09:", "C10:"), x.what) for x in lay]
+    finally:
+        sys.argv = old
+        shutil.rmtree(base, ignore_errors=True)
+    seen, res = set(), []
+    for d in out:
+        if d.sig not in seen:
+            seen.add(d.sig)
+            res.append(d)
+    return res
+
+
+def oracle_unifier(case):
+    """unifier.main -f PDB on ONE harness-written mmCIF file of complete standard nucleotides that does not fit PDB
+    limits: the written PDB must hold exactly the atoms of the A/C/G/U residues, under a renaming of chains and
+    residues that is one-to-one and preserves grouping (atoms matched by their unique coordinates, since the tool
+    re-orders atoms inside residues)"""
+    import contextlib
+    import io
+    import os
+    import shutil
+    import sys
+
+    import rnapolis.unifier as un
+    from rnapolis.parser_v2 import parse_pdb_atoms
+    from rnaverif.runner import WORK_DIR
+
+    atoms = modify(case["atoms"], case.get("mod", {}))
+    want = [a for a in atoms if a["resname"] in ("A", "C", "G", "U")]
+    info = case.setdefault("_info", {})
+    if not want or feasibility(atoms) != "feasible":
+        info["skipped"] = True
+        return []
+    os.makedirs(WORK_DIR, exist_ok=True)
+    base = os.path.join(WORK_DIR, f"c10unif_{os.getpid()}")
+    shutil.rmtree(base, ignore_errors=True)
+    os.makedirs(base)
+    src = os.path.join(base, "input.cif")
+    with open(src, "w") as f:
+        f.write(atomtab.emit_cif(atoms, case.get("null", "?")))
+    outdir = os.path.join(base, "out")
+    out = []
+    old = sys.argv
+    buf, err = io.StringIO(), io.StringIO()
+    try:
+        sys.argv = ["unifier", "-o", outdir, "-f", "PDB", src]
+        try:
+            with contextlib.redirect_stdout(buf), contextlib.redirect_stderr(err):
+                un.main()
+        except SystemExit as e:
+            if e.code not in (0, None):
+                return [D("C10:unifier:exit", f"unifier exited with {e.code}: {(buf.getvalue() + err.getvalue())[-200:]}")]
         except Exception as e:
             from rnaverif.runner import sut_location
-            out.append(D(f"C10:{tag}:crash:{type(e).__name__}@{sut_location(e.__traceback__)}", f"{type(e).__name__}: {str(e)[:200]}"))
-            continue
-        if feas == "infeasible":
-            out.append(D(f"C10:{tag}:infeasible-not-refused", "a table that cannot fit was returned instead of ValueError"))
-            continue
-        after_src = c09.logical(df)
-        if after_src != before:
-            out.append(D(f"C10:{tag}:input-mutated", "fit_to_pdb changed the table it was given"))
-        if already:
-            if fitted is not df and c09.logical(fitted) != before:
-                out.append(D(f"C10:{tag}:fitting-table-changed", "an already fitting table was not returned unchanged"))
-            continue
-        try:
-            rows = c09.logical(fitted)
-        except Exception as e:
-            out.append(D(f"C10:{tag}:fitted-table-unreadable:{type(e).__name__}", f"{type(e).__name__}: {str(e)[:160]}"))
-            continue
-        check_fitted(tag, atoms, rows, out)
-        if not can_write_pdb(fitted):
-            out.append(D(f"C10:{tag}:fitted-not-writable", "can_write_pdb(fit_to_pdb(t)) is False"))
-        try:
-            text = write_pdb(fitted)
-            back = c09.logical(parse_pdb_atoms(text))
-        except Exception as e:
-            from rnaverif.runner import sut_location
-            out.append(D(f"C10:{tag}:write-crash:{type(e).__name__}@{sut_location(e.__traceback__)}", f"{type(e).__name__}: {str(e)[:200]}"))
-            continue
-        d = c09.diff_tables(f"{tag}:write-read", rows, back, False)
-        out += [D(x.sig.replace("C09:", "C10:"), x.what) for x in d]
-        lay = c09.check_pdb_layout(f"{tag}:written", text, rows)
-        out += [D(x.sig.replace("C09:", "C10:"), x.what) for x in lay]
+            return [D(f"C10:unifier:crash:{type(e).__name__}@{sut_location(e.__traceback__)}", f"{type(e).__name__}: {str(e)[:200]}")]
+        path = os.path.join(outdir, "input.pdb")
+        if not os.path.exists(path):
+            return [D("C10:unifier:file-missing", f"no PDB written although the table can be fitted; stderr: {err.getvalue()[-200:]}")]
+        with open(path) as f:
+            text = f.read()
+        rows = c09.logical(parse_pdb_atoms(text))
+    finally:
+        sys.argv = old
+        shutil.rmtree(base, ignore_errors=True)
+    by_xyz = {}
+    for a in want:
+        by_xyz[(round(a["x"], 3), round(a["y"], 3), round(a["z"], 3))] = a
+    if len(by_xyz) != len(want):
+        raise HarnessError("generated atoms share coordinates")
+    if len(rows) != len(want):
+        out.append(D("C10:unifier:row-count", f"{len(rows)} atoms written for {len(want)} atoms of standard residues"))
+    cmap, rmap, inv_c, inv_r, seen_xyz = {}, {}, {}, {}, set()
+    for b in rows:
+        k = (round(b["x"], 3), round(b["y"], 3), round(b["z"], 3))
+        a = by_xyz.get(k)
+        if a is None:
+            out.append(D("C10:unifier:atom-not-from-input", f"written atom {b['name']} at {k} is no atom of a standard residue of the input"))
+            break
+        if k in seen_xyz:
+            out.append(D("C10:unifier:atom-twice", f"atom at {k} written twice"))
+            break
+        seen_xyz.add(k)
+        for f_ in ("name", "resname", "element", "occ", "bfac", "charge"):
+            if not c09.same(a[f_], b[f_], f_):
+                out.append(D(f"C10:unifier:field-changed:{f_}", f"{a['name']} {a['chain']}{a['resseq']}{a['icode']}: {f_} {a[f_]!r} became {b[f_]!r}"))
+                break
+        if len(b["chain"]) != 1 or b["resseq"] > 9999 or b["serial"] > 99999:
+            out.append(D("C10:unifier:limit", f"chain {b['chain']!r} resSeq {b['resseq']} serial {b['serial']}"))
+            break
+        ro, rn = (a["chain"], a["resseq"], a["icode"]), (b["chain"], b["resseq"], b["icode"])
+        if cmap.setdefault(a["chain"], b["chain"]) != b["chain"] or inv_c.setdefault(b["chain"], a["chain"]) != a["chain"]:
+            out.append(D("C10:unifier:chain-mapping-not-one-to-one", f"{a['chain']!r} -> {b['chain']!r} conflicts with {cmap.get(a['chain'])!r} / {inv_c.get(b['chain'])!r}"))
+            break
+        if rmap.setdefault(ro, rn) != rn or inv_r.setdefault(rn, ro) != ro:
+            out.append(D("C10:unifier:residue-mapping-not-one-to-one", f"{ro} -> {rn} conflicts with {rmap.get(ro)} / {inv_r.get(rn)}"))
+            break
+    lay = c09.check_pdb_layout("unifier:written", text, rows)
+    out += [D(x.sig.replace("C09:", "C10:"), x.what) for x in lay]
     seen, res = set(), []
     for d in out:
         if d.sig not in seen:
@@ -221,9 +441,15 @@ def classify(case):
     atoms = modify(case["atoms"], case.get("mod", {}))
     labs = []
     mod = case.get("mod", {})
-    for k in ("long_chains", "number_shift", "serial_shift", "interleave"):
+    for k in ("long_chains", "number_shift", "serial_shift", "interleave", "model_chains"):
         if mod.get(k):
             labs.append(k)
+    if mod.get("long_chains") and mod.get("long_only"):
+        labs.append("long-chains-only-some")
+    if case.get("select"):
+        labs.append("sub-table:" + case["select"][0])
+    if case.get("cli") is True:
+        labs.append("splitter-cli")
     if len({a["model"] for a in atoms}) >= 2:
         labs.append("models>=2")
     if any(a["icode"] for a in atoms):
@@ -241,19 +467,47 @@ def st_cases():
         "number_shift": st.sampled_from([0, 0, 10000, 99000]),
         "serial_shift": st.sampled_from([0, 0, 100000, 12345678]),
         "interleave": st.booleans(),
+        "long_only": st.sampled_from([0, 0, 1, 2]),
+        "model_chains": st.sampled_from([False, False, True]),
     })
-    return st.fixed_dictionaries({"atoms": atomtab.st_tables(max_residues=4, max_atoms=5), "mod": mod, "null": st.sampled_from(["?", "."])})
+    select = st.one_of(st.none(), st.tuples(st.sampled_from(["model", "groupby-model", "chain", "chains-alternate"]), st.integers(0, 3)).map(list))
+    return st.fixed_dictionaries({"atoms": atomtab.st_tables(max_residues=4, max_atoms=5), "mod": mod, "null": st.sampled_from(["?", "."]),
+                                  "select": select})
+
+
+def st_unifier_cases():
+    from hypothesis import strategies as st
+
+    mod = st.fixed_dictionaries({
+        "long_chains": st.sampled_from(["", "A", "x1", "LONG"]),
+        "number_shift": st.sampled_from([0, 0, 10000, 99000]),
+        "serial_shift": st.sampled_from([0, 0, 100000]),
+        "long_only": st.sampled_from([0, 0, 1, 2]),
+    })
+    return st.fixed_dictionaries({"atoms": atomtab.st_tables(max_models=1, max_chains=3, max_residues=4, altlocs=False, hetero=False,
+                                                             realistic_nucleotides=True),
+                                  "mod": mod, "null": st.sampled_from(["?", "."]), "cli": st.just("unifier")})
+
+
+def st_cli_cases():
+    from hypothesis import strategies as st
+
+    return st_cases().map(lambda c: dict(c, cli=True, select=None))
 
 
 def plan(tier, seed):
     if tier == "quick":
         specs = [{"kind": "tables", "examples": 50, "seed": seed * 1000 + k} for k in range(14)]
         specs += [{"kind": "oversize", "cases": [["chains", 63]]}, {"kind": "oversize", "cases": [["chains", 62], ["residues", 10000]]}]
+        specs += [{"kind": "splitter", "examples": 30, "seed": seed * 1000 + 200 + k} for k in range(4)]
+        specs += [{"kind": "unifier", "examples": 20, "seed": seed * 1000 + 300 + k} for k in range(4)]
     else:
         specs = [{"kind": "tables", "examples": 320, "seed": seed * 1000 + k} for k in range(14)]
         specs += [{"kind": "oversize", "cases": [["chains", 63], ["chains", 70], ["chains", 62]]},
                   {"kind": "oversize", "cases": [["residues", 10000], ["residues", 9999]]},
                   {"kind": "oversize", "cases": [["atoms", 100000]]}]
+        specs += [{"kind": "splitter", "examples": 300, "seed": seed * 1000 + 200 + k} for k in range(8)]
+        specs += [{"kind": "unifier", "examples": 150, "seed": seed * 1000 + 300 + k} for k in range(8)]
     return specs
 
 
@@ -263,7 +517,13 @@ def to_json(case):
 
 def run_shard(spec) -> ShardResult:
     res = ShardResult()
-    if spec["kind"] == "tables":
+    if spec["kind"] == "unifier":
+        run_hypothesis(PROP_ID, st_unifier_cases(), oracle_unifier, seed=spec["seed"], max_examples=spec["examples"], result=res,
+                       to_json=to_json, classify=lambda c: (classify(c)[0] and not c.get("_info", {}).get("skipped"), ["unifier-cli"] + classify(c)[1]), sample_cap=1)
+    elif spec["kind"] == "splitter":
+        run_hypothesis(PROP_ID, st_cli_cases(), oracle_splitter, seed=spec["seed"], max_examples=spec["examples"], result=res,
+                       to_json=to_json, classify=classify, sample_cap=1)
+    elif spec["kind"] == "tables":
         run_hypothesis(PROP_ID, st_cases(), oracle, seed=spec["seed"], max_examples=spec["examples"], result=res,
                        to_json=to_json, classify=classify, sample_cap=1)
     else:
@@ -276,4 +536,8 @@ def run_shard(spec) -> ShardResult:
 
 
 def replay(case):
+    if case.get("cli") == "unifier":
+        return oracle_unifier(dict(case))
+    if case.get("cli"):
+        return oracle_splitter(dict(case))
     return oracle(dict(case))
